@@ -4,6 +4,7 @@
 pub mod decoders;
 pub mod fieldmap;
 pub mod flow;
+pub mod fuzzsupport;
 pub mod gen;
 pub mod known;
 pub mod ksf;
